@@ -173,7 +173,9 @@ class MySQLLoadQueryBuilder:
         return querystring
 
     def _load_file_sql(self, ctx: SqlContext) -> str:
-        return "LOAD DATA LOCAL INFILE '{}'".format(self._load_file)
+        # the file name is a MySQL string literal: quotes are doubled, backslashes escaped
+        file_name = str(self._load_file).replace("'", "''").replace("\\", "\\\\")
+        return "LOAD DATA LOCAL INFILE '{}'".format(file_name)
 
     def _into_table_sql(self, ctx: SqlContext) -> str:
         table = cast(Table, self._into_table)
